@@ -228,6 +228,7 @@ fn main() {
         "C34" => run_c34(&tier, &mut out),
         "C13" => vmc::c13::run_c13(&tier, &mut out),
         "C35" => vmc::c13::run_c35(&tier, &mut out),
+        "C24" => vmc::c24::run(&tier, &mut out),
         _ => {
             let _ = writeln!(out, "MACHINERY-ERROR unknown property {property} for apimc");
             2
